@@ -4,3 +4,7 @@
 #![allow(missing_docs, clippy::unwrap_used, missing_debug_implementations, unreachable_pub)]
 
 pub use iroh_base::verif_hooks as sched;
+pub mod c37;
+pub mod c38;
+pub mod c36;
+pub mod c39;
